@@ -141,8 +141,12 @@ def coq_eval(imports, defs, exprs_type, exprs, timeout=1800, shard=400, label="c
             f.write(";\n".join(shards[k]))
             f.write("\n].\n")
             f.write("Definition out := Eval vm_compute in map (fun c => l2s (hex_of_str (run_case c))) cases.\nPrint out.\n")
+        fo = open(path[:-2] + ".out", "wb")
+        fe = open(path[:-2] + ".err", "wb")
         p = subprocess.Popen(["coqc", "-Q", os.path.join(COQ, "theories"), "GoFlags", path],
-                             cwd=tmp, stdout=subprocess.PIPE, stderr=subprocess.PIPE)
+                             cwd=tmp, stdout=fo, stderr=fe)
+        fo.close()
+        fe.close()
         return (k, p, path, time.time())
 
     pending = list(range(len(shards)))
@@ -157,7 +161,8 @@ def coq_eval(imports, defs, exprs_type, exprs, timeout=1800, shard=400, label="c
                     raise CheckError("coqc timed out evaluating cases")
                 still.append((k, p, path, t0))
                 continue
-            out, err = p.communicate()
+            out = open(path[:-2] + ".out", "rb").read()
+            err = open(path[:-2] + ".err", "rb").read()
             if p.returncode != 0:
                 raise CheckError("coqc failed on generated cases file %s:\n%s" % (path, err.decode(errors="replace")[-3000:]))
             txt = out.decode()
@@ -166,7 +171,7 @@ def coq_eval(imports, defs, exprs_type, exprs, timeout=1800, shard=400, label="c
             if len(vals) != len(shards[k]):
                 raise CheckError("coq printed %d results for %d cases in %s" % (len(vals), len(shards[k]), path))
             results[k] = vals
-            for ext in (".v", ".vo", ".vok", ".vos", ".glob"):
+            for ext in (".v", ".vo", ".vok", ".vos", ".glob", ".out", ".err"):
                 try:
                     os.remove(path[:-2] + ext)
                 except OSError:
